@@ -1,4 +1,4 @@
-import PC.Proofs.SupArms
+import PC.Proofs.SupGate
 import PC.Spec.SupSpec
 /-! C05 — unsatisfiable dependency ⇒ dependent skipped, transitively (supervisor model). -/
 namespace PC.Props.C05
@@ -42,6 +42,37 @@ theorem exit_on_skipped (s : Sys) (t : Tid) (i : IId) (h : (s.icfg i).exitOnSkip
     (hs : s.exitCodeSet = false) :
     (armProcSkipped s t i).exitCode = 1 := by
   simp [armProcSkipped, h, recordExit, hs, Sys.emit, Sys.setPc]
+
+/-! ### Skipped means never launched, in every continuation -/
+
+theorem tail_not_launch {pc : Pc} (h : pc.isTail = true) : pc.isLaunch = false := by
+  have := tail_other h
+  unfold Pc.isOther at this
+  simp only [Bool.and_eq_true, Bool.not_eq_eq_eq_not, Bool.not_true] at this
+  exact this.1
+
+/-- **A skipped process is never launched**: once the thread of a process has taken the skip path
+    (its wait ended with the condition unmet) it stands at `proc:skipped`, and in every state
+    reachable from there — whatever happens later to its dependencies, whatever requests are made —
+    it is outside the launch phase of `run()`, the only place where a command is started. -/
+theorem skipped_never_launched (s s' : Sys) (t : Tid) (i : IId) (ht : t < s.threads.length)
+    (hk : (s.thr t).kind = .proc i) (hpc : (s.thr t).pc = .procSkipped) (hr : Reach s s') :
+    (s'.thr t).pc.isLaunch = false :=
+  tail_not_launch (tail_forever hr t i ht hk (by rw [hpc]; rfl)).2.2
+
+/-- the three ways a wait ends in the skip path: a non-zero exit code under
+    `process_completed_successfully`, a dependency not Ready under `process_healthy`, no ready line
+    under `process_log_ready` -/
+theorem unmet_condition_skips (s : Sys) (t : Tid) (i d : IId) (rest) (ht : t < s.threads.length) :
+    ((s.ps (s.nameOf d)).exit ≠ 0 → ((armWaitDone s t i d true rest).thr t).pc = .procSkipped) ∧
+    ((s.ps (s.nameOf d)).health ≠ .ready → ((armWaitReady s t i d rest).thr t).pc = .procSkipped) ∧
+    ((s.inst d).logReady ≠ .ok → ((armWaitLogReady s t i d rest).thr t).pc = .procSkipped) := by
+  have hskip : ((doSkip s t i).thr t).pc = .procSkipped := by
+    unfold doSkip; exact pc_setPc _ _ _ (by simpa using ht)
+  refine ⟨fun h => ?_, fun h => ?_, fun h => ?_⟩
+  · simp [armWaitDone, h, hskip]
+  · simp [armWaitReady, h, hskip]
+  · simp [armWaitLogReady, h, hskip]
 
 /-! Non-vacuity: a → b → c chained with `process_completed_successfully`; `a` exits 3:
     `b` and `c` are both skipped (exit code 1) and neither is launched. -/
